@@ -285,8 +285,25 @@ func refParity(rows [][]byte, line bitset, fs int) []byte {
 // every sub-check relies on: no error, exactly frags+redundancy fragments of
 // fragSize bytes, input left untouched.
 func encode(b block, data []byte) ([][]byte, string) {
-	in := append([]byte(nil), data...)
+	// the block as it usually arrives: a sub-slice of a larger buffer (a firmware image cut into blocks), i.e. with
+	// spare capacity and foreign bytes behind it; for every fourth block a private exact-size copy instead
+	var in, backing []byte
+	spare := 0
+	if b.Seed%4 != 0 {
+		spare = b.FragSize*(b.Redundancy+1) + 16
+	}
+	backing = make([]byte, len(data)+spare)
+	copy(backing, data)
+	for i := len(data); i < len(backing); i++ {
+		backing[i] = 0xC3 ^ byte(i)
+	}
+	in = backing[:len(data)]
 	out, err := fragmentation.Encode(in, b.FragSize, b.Redundancy)
+	for i := len(data); i < len(backing); i++ {
+		if backing[i] != 0xC3^byte(i) {
+			return nil, fmt.Sprintf("%s: the bytes behind the data block (spare capacity of the caller's slice, here the next block of the same buffer) were overwritten at offset +%d", b, i-len(data))
+		}
+	}
 	if err != nil {
 		return nil, fmt.Sprintf("%s: unexpected error %v for a length that is a multiple of the fragment size", b, err)
 	}
